@@ -4,10 +4,10 @@
 From Coq Require Import List NArith Bool String.
 Import ListNotations.
 Require Import RV.Lib.PyStr RV.Model.C05Text RV.Model.LoginMap.
-Require RV.Gen.LoginMapGen.
+Require RV.Gen.LoginMapC05Gen.
 Open Scope N_scope.
 
 Lemma Gen_map_login_eq : forall py_lower py_upper lc uc sd login,
-  LoginMapGen.map_login py_lower py_upper lc uc sd login = map_login py_lower py_upper lc uc sd login.
+  LoginMapC05Gen.map_login py_lower py_upper lc uc sd login = map_login py_lower py_upper lc uc sd login.
 Proof. intros py_lower py_upper [|] [|] [|] login; reflexivity. Qed.
 
